@@ -591,7 +591,16 @@ InterfaceOperations::find_impl_for_struct(const std::string &struct_name,
                                     debug_msg(DebugMsgId::GENERIC_DEBUG,
                                               "[GENERIC_IMPL]     Added ");
                                 } else {
-                                    new_impl.methods.push_back(arg.get());
+                                    // Methods are instantiated per type
+                                    // argument tuple: in the shared generic
+                                    // node, parameters and locals declared T
+                                    // have no type of their own
+                                    instantiated_impl_nodes_.push_back(
+                                        GenericInstantiation::
+                                            instantiate_generic_impl_method(
+                                                arg.get(), type_map));
+                                    new_impl.methods.push_back(
+                                        instantiated_impl_nodes_.back().get());
                                     debug_msg(DebugMsgId::GENERIC_DEBUG,
                                               "[GENERIC_IMPL]     Added ");
                                 }
